@@ -27,7 +27,91 @@ type cplan struct {
 	Op      string `json:"op"`
 	DelayMs int    `json:"delay_ms"`
 	HoldMs  int    `json:"hold_ms"`
-	TmoMs   int    `json:"timeout_ms"`
+	TmoMs   int    `json:"timeout_ms"` // the lock's wait time-out (CreateLock / doLock argument)
+	// the caller's context: "background" (no deadline), "longer" / "shorter" (own
+	// deadline CallerMs after the call, later / earlier than the lock's
+	// time-out), "cancelled" (already cancelled when the call is made)
+	Ctx      string `json:"ctx"`
+	CallerMs int    `json:"caller_deadline_ms,omitempty"`
+	// effective wait time-out = min(lock time-out, caller deadline); 0 when cancelled
+	EffMs int `json:"effective_timeout_ms"`
+}
+
+const (
+	ctxBackground = "background"
+	ctxLonger     = "longer"
+	ctxShorter    = "shorter"
+	ctxCancelled  = "cancelled"
+)
+
+// with sets the caller-context kind of a contender.
+func (c cplan) with(kind string, callerMs int) cplan {
+	c.Ctx, c.CallerMs = kind, callerMs
+	return c.fin()
+}
+
+func (c cplan) fin() cplan {
+	if c.Ctx == "" {
+		c.Ctx = ctxBackground
+	}
+	switch c.Ctx {
+	case ctxShorter:
+		c.EffMs = c.CallerMs
+	case ctxCancelled:
+		c.EffMs = 0
+	default:
+		c.EffMs = c.TmoMs
+	}
+	return c
+}
+
+func (p plan) fin() plan {
+	for i := range p.C {
+		p.C[i] = p.C[i].fin()
+	}
+	return p
+}
+
+// callerCtx makes the context a contender calls with (at call time).
+func callerCtx(parent context.Context, c cplan) (context.Context, context.CancelFunc) {
+	switch c.Ctx {
+	case ctxLonger, ctxShorter:
+		return context.WithTimeout(parent, time.Duration(c.CallerMs)*time.Millisecond)
+	case ctxCancelled:
+		ctx, cancel := context.WithCancel(parent)
+		cancel()
+		return ctx, cancel
+	}
+	return parent, func() {}
+}
+
+// drawCtx draws the caller-context kind of a random contender: 40% background,
+// 30% longer (lock time-out + 1500..3000 ms), 20% shorter (40..80% of the lock
+// time-out, at least minShort), 10% cancelled; try-locks only background / longer.
+func drawCtx(r *vh.Run, c cplan, minShort int) cplan {
+	x := r.Rng.Intn(100)
+	if c.Op == locklog.OpTry {
+		if x < 57 {
+			return c.with(ctxBackground, 0)
+		}
+		return c.with(ctxLonger, c.TmoMs+1500+r.Rng.Intn(1501))
+	}
+	switch {
+	case x < 40:
+		return c.with(ctxBackground, 0)
+	case x < 70:
+		return c.with(ctxLonger, c.TmoMs+1500+r.Rng.Intn(1501))
+	case x < 90:
+		d := c.TmoMs * (40 + r.Rng.Intn(41)) / 100
+		if d < minShort {
+			d = minShort
+		}
+		if d >= c.TmoMs {
+			return c.with(ctxBackground, 0)
+		}
+		return c.with(ctxShorter, d)
+	}
+	return c.with(ctxCancelled, 0)
 }
 
 type plan struct {
@@ -52,8 +136,12 @@ type result struct {
 	rank       []int    // calcium/etcd: provisional contender id -> emitted index (rank of its lease)
 }
 
-func lk(delay, hold, tmo int) cplan  { return cplan{locklog.OpLock, delay, hold, tmo} }
-func try(delay, hold, tmo int) cplan { return cplan{locklog.OpTry, delay, hold, tmo} }
+func lk(delay, hold, tmo int) cplan {
+	return cplan{Op: locklog.OpLock, DelayMs: delay, HoldMs: hold, TmoMs: tmo}.fin()
+}
+func try(delay, hold, tmo int) cplan {
+	return cplan{Op: locklog.OpTry, DelayMs: delay, HoldMs: hold, TmoMs: tmo}.fin()
+}
 
 // corpus: fixed plans; long = the largest admissible wait time-out of the backend
 func corpus(backend string) []plan {
@@ -79,12 +167,46 @@ func corpus(backend string) []plan {
 		// etcd wait time-outs are >= 300 ms (see stalled below)
 		ps[2] = plan{Name: "c-wait-timeout", C: []cplan{lk(0, 700, long), lk(50, 10, 300)}}
 	}
+	// the caller's own context: a waiter whose context carries a LATER deadline
+	// than the lock's wait time-out must still fail at the time-out (the holder
+	// releases before the caller's deadline); a waiter with an EARLIER deadline
+	// fails at that deadline; a Lock called with a cancelled context fails at once
+	ps = append(ps,
+		plan{Name: "i-longer-caller-deadline", C: []cplan{lk(0, 900, long), lk(50, 10, 400).with(ctxLonger, 3000)}},
+		plan{Name: "j-shorter-caller-deadline", C: []cplan{lk(0, 900, long), lk(50, 10, 900).with(ctxShorter, 300)}},
+		plan{Name: "k-cancelled-on-free-lock", C: []cplan{lk(0, 10, long).with(ctxCancelled, 0)}},
+		plan{Name: "l-cancelled-while-held", C: []cplan{lk(0, 300, long), lk(50, 10, long).with(ctxCancelled, 0)}})
+	for i := range ps {
+		ps[i] = ps[i].fin()
+	}
 	return ps
 }
 
 func randomPlan(r *vh.Run, backend string, k int) plan {
 	n := 2 + r.Rng.Intn(5)
 	p := plan{Name: fmt.Sprintf("random-%d", k)}
+	minTmo, minShort := 300, 200 // etcd: see notValidated
+	if backend == "redis" {
+		minTmo, minShort = 150, 100
+	}
+	if r.Rng.Intn(100) < 35 {
+		// a holder that outlasts the lock time-out of the waiters but releases
+		// before their own (later) deadlines: every waiter must fail at its
+		// time-out, none may acquire late
+		p.Name = fmt.Sprintf("random-outlast-%d", k)
+		hold := 800 + r.Rng.Intn(301)
+		long := 999
+		if backend == "redis" {
+			long = 1200
+		}
+		p.C = append(p.C, cplan{Op: locklog.OpLock, DelayMs: 0, HoldMs: hold, TmoMs: long}.with(ctxBackground, 0))
+		for i := 1; i < n; i++ {
+			tmo := minTmo + r.Rng.Intn(hold-450-minTmo+1)
+			c := cplan{Op: locklog.OpLock, DelayMs: 20 + r.Rng.Intn(81), HoldMs: 5 + r.Rng.Intn(46), TmoMs: tmo}
+			p.C = append(p.C, c.with(ctxLonger, tmo+1500+r.Rng.Intn(1501)))
+		}
+		return p
+	}
 	if backend == "redis" && r.Rng.Intn(10) < 3 {
 		// one long holder; the others start inside its hold, half of them with
 		// TryLock; time-outs above the 500 ms retry period
@@ -96,9 +218,9 @@ func randomPlan(r *vh.Run, backend string, k int) plan {
 			if r.Rng.Intn(2) == 0 {
 				c.Op = locklog.OpTry
 			}
-			p.C = append(p.C, c)
+			p.C = append(p.C, drawCtx(r, c, minShort))
 		}
-		return p
+		return p.fin()
 	}
 	// a third of the plans have long critical sections, so that waiting Locks
 	// also run into their time-out
@@ -119,7 +241,7 @@ func randomPlan(r *vh.Run, backend string, k int) plan {
 		} else {
 			c.TmoMs = 300 + r.Rng.Intn(700) // < 1000: session TTL stays the default 60 s
 		}
-		p.C = append(p.C, c)
+		p.C = append(p.C, drawCtx(r, c, minShort))
 	}
 	return p
 }
@@ -145,8 +267,10 @@ func runContenders(locks []lock.DistributedLock, p plan, res *result) {
 			defer wg.Done()
 			c := p.C[i]
 			time.Sleep(time.Duration(c.DelayMs) * time.Millisecond)
+			cctx, ccancel := callerCtx(ctx, c) // the caller's own context, made at call time
+			defer ccancel()
 			L.Call(i, c.Op)
-			_, err, panicked := locklog.Acquire(ctx, locks[i], c.Op)
+			_, err, panicked := locklog.Acquire(cctx, locks[i], c.Op)
 			if err != nil || panicked {
 				f := locklog.ClassifyFail(c.Op, err, panicked)
 				L.Fail(i, f)
@@ -188,6 +312,9 @@ func calciumPlans(r *vh.Run, backend string) []plan {
 	if backend == "etcd" {
 		ps[1] = plan{Name: "calcium-wait-timeout", C: []cplan{lk(0, 700, long), lk(50, 10, 300)}}
 	}
+	ps = append(ps,
+		plan{Name: "calcium-longer-caller-deadline", C: []cplan{lk(0, 900, long), lk(50, 10, 400).with(ctxLonger, 3000)}},
+		plan{Name: "calcium-shorter-and-cancelled", C: []cplan{lk(0, 600, long), lk(50, 10, 900).with(ctxShorter, 300), lk(80, 10, long).with(ctxCancelled, 0)}})
 	for k, n := 0, r.N(8, 100); k < n; k++ {
 		p := randomPlan(r, backend, k)
 		p.Name = "calcium-" + p.Name
@@ -198,6 +325,7 @@ func calciumPlans(r *vh.Run, backend string) []plan {
 	}
 	for i := range ps {
 		ps[i].Via = "calcium"
+		ps[i] = ps[i].fin()
 	}
 	return ps
 }
@@ -219,6 +347,8 @@ func runCalciumContenders(c *calcium.Calcium, key string, p plan, res *result) (
 			defer wg.Done()
 			cp := p.C[i]
 			time.Sleep(time.Duration(cp.DelayMs) * time.Millisecond)
+			cctx, ccancel := callerCtx(ctx, cp) // the caller's own context, made at call time
+			defer ccancel()
 			L.Call(i, locklog.OpLock)
 			var l lock.DistributedLock
 			var err error
@@ -229,7 +359,7 @@ func runCalciumContenders(c *calcium.Calcium, key string, p plan, res *result) (
 						err, panicked = fmt.Errorf("panic: %v", pv), true
 					}
 				}()
-				l, _, err = c.VerifFDoLock(ctx, key, time.Duration(cp.TmoMs)*time.Millisecond)
+				l, _, err = c.VerifFDoLock(cctx, key, time.Duration(cp.TmoMs)*time.Millisecond)
 			}()
 			mu.Lock()
 			locks[i] = l
@@ -341,20 +471,12 @@ func runEtcd(env *locklog.Etcd, key string, p plan) (res result) {
 //   - every run: the in-process scheduling probe saw a gap of 100 ms or more
 //     (the wall-clock bounds of ok18 — a try-lock returns within 300 ms — would
 //     measure this process, not the lock);
-//   - etcd: some heartbeat write to the embedded cluster took at least half the
-//     smallest wait time-out (a time-out may then fire inside an RPC, which the
-//     model leaves out), or 100 ms or more in a plan with a TryLock (two RPCs);
+//   - etcd: some heartbeat write to the embedded cluster took 100 ms or more (a
+//     try-lock is two RPCs against its 300 ms bound, a timed-out Lock is followed
+//     by up to three before it returns, against the 300 ms slack), or at least
+//     half the smallest effective wait time-out;
 //   - redis: a PING against the run's miniredis took 100 ms or more.
 const probeLimitMs = 100
-
-func hasTry(p plan) bool {
-	for _, c := range p.C {
-		if c.Op == locklog.OpTry {
-			return true
-		}
-	}
-	return false
-}
 
 func notValidated(backend string, p plan, res result) bool {
 	if res.gapMs >= probeLimitMs {
@@ -363,13 +485,14 @@ func notValidated(backend string, p plan, res result) bool {
 	if backend == "redis" {
 		return res.pingMs >= probeLimitMs
 	}
-	min := p.C[0].TmoMs
+	// smallest effective wait time-out that can fire (cancelled callers: none)
+	min := 0
 	for _, c := range p.C {
-		if c.TmoMs < min {
-			min = c.TmoMs
+		if c.EffMs > 0 && (min == 0 || c.EffMs < min) {
+			min = c.EffMs
 		}
 	}
-	return res.hbMs*2 >= int64(min) || (hasTry(p) && res.hbMs >= probeLimitMs)
+	return res.hbMs >= probeLimitMs || (min > 0 && res.hbMs*2 >= int64(min))
 }
 
 // runEtcdRetry repeats a not validated (or infrastructure-failed) run on a
@@ -460,7 +583,7 @@ func stream(t *testing.T, backend string, exec func(k int, p plan) result) {
 			if res.rank != nil {
 				j = res.rank[i] // contenders renumbered by lease rank
 			}
-			tmo[j] = int64(c.TmoMs)
+			tmo[j] = int64(c.EffMs) // the EFFECTIVE wait time-out: min(lock time-out, caller deadline)
 			ttl[i] = 60
 		}
 		var term string
@@ -469,7 +592,19 @@ func stream(t *testing.T, backend string, exec func(k int, p plan) result) {
 		} else {
 			term = fmt.Sprintf("(mkRCase %s %s %s)", vh.ZList(tmo), locklog.CoqLog(res.evs), vh.Z(0))
 		}
-		contention := locklog.Contention(res.evs)
+		// contenders called with a cancelled context fail by themselves: they do
+		// not make a run contended
+		skip := map[int]bool{}
+		for i, c := range p.C {
+			if c.Ctx == ctxCancelled {
+				j := i
+				if res.rank != nil {
+					j = res.rank[i]
+				}
+				skip[j] = true
+			}
+		}
+		contention := locklog.ContentionExcept(res.evs, skip)
 		desc := map[string]any{"backend": backend, "plan": p, "log": res.evs}
 		if backend == "etcd" {
 			desc["muts"] = res.muts
@@ -500,7 +635,15 @@ func stream(t *testing.T, backend string, exec func(k int, p plan) result) {
 		r.Count(fmt.Sprintf("n=%d", len(p.C)))
 		for i, c := range p.C {
 			r.Count("op=" + c.Op)
-			r.Count("outcome[" + p.Via + "]=" + locklog.Outcome(res.evs, i))
+			r.Count("ctx=" + c.Ctx)
+			j := i
+			if res.rank != nil {
+				j = res.rank[i]
+			}
+			r.Count("outcome[" + p.Via + "]=" + locklog.Outcome(res.evs, j))
+			if c.Op == locklog.OpLock {
+				r.Count("lock_outcome[ctx=" + c.Ctx + "]=" + locklog.Outcome(res.evs, j))
+			}
 		}
 		if contention {
 			r.Count("runs_with_contention")
@@ -515,11 +658,15 @@ func stream(t *testing.T, backend string, exec func(k int, p plan) result) {
 		t.Logf("C18 %s: %d of %d runs dropped (timing not validated)", backend, dropped, len(plans))
 	}
 	r.Finish("corpus of fixed plans (hand-over, busy try-lock, wait time-out, six lockers, uncontended lock / try-lock" +
-		", redis: acquisition on the 500 ms retry, a try-lock 50 ms into a 900 ms hold, a try-lock 100 ms before the end of a 400 ms hold) then random plans: 2..6 contenders, Lock (70%) or TryLock, start delay 0..60 ms," +
-		" hold 5..50 ms (a third of the plans: 100..350 ms), wait time-out 300..999 ms (etcd) / 100..1200 ms (redis); redis, 30% of the random plans: one holder for 400..900 ms, the others start inside its hold, half of them with TryLock, time-outs 600..1200 ms; one goroutine and one lock object" +
+		", redis: acquisition on the 500 ms retry, a try-lock 50 ms into a 900 ms hold, a try-lock 100 ms before the end of a 400 ms hold;" +
+		" caller contexts: a waiter with lock time-out 400 ms and a 3 s caller deadline behind a 900 ms hold, a waiter with a 300 ms caller deadline and lock time-out 900 ms," +
+		" a Lock with a cancelled context on a free lock and on a held lock) then random plans: 2..6 contenders, Lock (70%) or TryLock, start delay 0..60 ms," +
+		" hold 5..50 ms (a third of the plans: 100..350 ms), wait time-out 300..999 ms (etcd) / 100..1200 ms (redis); redis, 30% of the random plans: one holder for 400..900 ms, the others start inside its hold, half of them with TryLock, time-outs 600..1200 ms; 35% of the random plans: a holder for 800..1100 ms and waiters whose lock time-out ends at least 450 ms before the holder leaves" +
+		" while their own caller deadline is 1500..3000 ms later; every contender calls with its own context (40% background, 30% longer deadline than the lock time-out," +
+		" 20% shorter, 10% already cancelled; try-locks background / longer) and the case carries the effective time-out min(lock time-out, caller deadline); one goroutine and one lock object" +
 		" (real store.CreateLock) per contender on the real " + backend + " backend; timing validation, independent of what the contenders observed: a run is repeated (at most three times) on a fresh key and then dropped and counted, never emitted," +
 		" when the in-process scheduling probe (5 ms sleeps) saw a gap of 100 ms or more, when (etcd) a heartbeat write" +
-		" to the embedded cluster took at least half the smallest wait time-out (100 ms or more in a plan with a TryLock), or when (redis) a PING against the run's miniredis took 100 ms or more; then the same kind of plans (3 fixed: hand-over, wait time-out, six lockers; 8 quick / 100 thorough random, Lock only)" +
+		" to the embedded cluster took 100 ms or more or at least half the smallest effective wait time-out, or when (redis) a PING against the run's miniredis took 100 ms or more; then the same kind of plans (3 fixed: hand-over, wait time-out, six lockers; 8 quick / 100 thorough random, Lock only)" +
 		" through the cluster-level cluster/calcium/lock.go (tag via=calcium): each contender calls the real Calcium.doLock (CreateLock + Lock, own rollback Unlock on failure)" +
 		" and doUnlock through the verif hook file; etcd: contenders are identified by the session lease read from the returned lock object and renumbered by lease rank;" +
 		" non-trivial = some contender" +
